@@ -28,6 +28,7 @@ func exec(p cluster.Program, c *hx.Case) error {
 		return hx.Errf("a worker stopped on its own in a run without injected failures: %v", st.ExitReasons)
 	}
 	c.LabelIf(st.MaxKeyCalls >= 2, "concurrent-key-calls")
+	c.LabelIf(len(p.Fan) > 0, "records-keyed-into-several-events")
 	c.LabelIf(st.WMTicks > 0, "watermark-ticks")
 	c.LabelIf(st.BarriersBothSides > 0, "barrier-with-records-on-both-sides")
 	if st.MaxKeyCalls >= 2 && st.BarriersBothSides > 0 {
@@ -37,5 +38,5 @@ func exec(p cluster.Program, c *hx.Case) error {
 }
 
 func TestPropDelivery(t *testing.T) {
-	hx.Run(t, hx.Spec{Prop: "C04", Persist: true, Rule: "the C01 cluster without failures: 1..3 workers, 1..4 splits of 5..80 records (splits assigned round robin), batch sizes 1..5 with a 1 ms time-out, read batches 1..4, KeyEventBatch latencies 0..600us drawn per call (asynchronous completions out of order), <=4 checkpoint ticks and <=8 watermark ticks of the source runners (their 200 ms ticker is the harness's, through a hook); every operator's incoming stream is recorded at the transport: each record exactly once at the operator whose range holds its key group, per (split,key) in split order, watermarks per runner monotone / below the largest forwarded timestamp / not behind records delivered earlier, reported split positions consistent with the barrier position in every stream, plus the C01 state oracle; non-trivial = >=2 KeyEventBatch calls in flight at once and a barrier with records of its runner on both sides"}, gen, exec)
+	hx.Run(t, hx.Spec{Prop: "C04", Persist: true, Rule: "the C01 cluster without failures: 1..3 workers, 1..4 splits of 5..80 records (splits assigned round robin; in a third of the cases KeyEvent keys records into two or three events with keys of their own), batch sizes 1..5 with a 1 ms time-out, read batches 1..4, KeyEventBatch latencies 0..600us drawn per call (asynchronous completions out of order), <=4 checkpoint ticks and <=8 watermark ticks of the source runners (their 200 ms ticker is the harness's, through a hook); every operator's incoming stream is recorded at the transport: each record exactly once at the operator whose range holds its key group, per (split,key) in split order, watermarks per runner monotone / below the largest forwarded timestamp / not behind records delivered earlier, reported split positions consistent with the barrier position in every stream, plus the C01 state oracle; non-trivial = >=2 KeyEventBatch calls in flight at once and a barrier with records of its runner on both sides"}, gen, exec)
 }
